@@ -769,3 +769,68 @@ func (p *Program) bytesRead(fn *types.Func, depth int) int {
 	}
 	return max
 }
+
+// ruleWidthCovers (E9.I3w): the compressed node writers store several numbers
+// with one shared width byte.  Every number written with that width (the item
+// count of a quadtree node as well as each item) must have taken part in
+// choosing it: on the interpreter, with numBytes opaque and the item loops
+// unrolled for two items, the width handed to appendNum ranks at least as high
+// as numBytes of the value written, for every order of the candidate widths.
+func (p *Program) ruleWidthCovers(c *Check) {
+	nb, an := p.Func("geometry", "numBytes"), p.Func("geometry", "appendNum")
+	if nb == nil || an == nil {
+		c.Undecided("E9.I3w", "anchor:geometry.numBytes/appendNum", "", "not found")
+		return
+	}
+	n := 0
+	for _, w := range [][2]string{{"qNode", "compress"}, {"rRect", "compress"}} {
+		fn := p.Method("geometry", w[0], w[1])
+		if fn == nil || p.Decl(fn) == nil {
+			c.Undecided("E9.I3w", "anchor:(*geometry."+w[0]+")."+w[1], "", "writer not found")
+			continue
+		}
+		self := map[*types.Func]bool{nb: true, an: true, fn: true}
+		if f := p.Func("geometry", "appendFloat"); f != nil {
+			self[f] = true
+		}
+		if f := p.Func("geometry", "quadBounds"); f != nil {
+			self[f] = true
+		}
+		n++
+		before := len(c.Obs)
+		p.runE8(c, &e8row{id: "(*geometry." + w[0] + ")." + w[1] + "#width", fn: fn, opaque: self, rangeMax: 2, maxBools: 16,
+			group: func(string) int { return 0 },
+			what:  "every number written with the node's shared width byte took part in choosing that width (width >= numBytes(value))",
+			spec: func(a *e8assign, nm *e8names, out *e8out) string {
+				for _, cl := range out.in.called("appendNum") {
+					if len(cl.args) < 3 || cl.args[1] == nil || cl.args[2] == nil {
+						return "appendNum is called with arguments the engine cannot name"
+					}
+					v, wv := cl.args[1], cl.args[2]
+					if wv.k != kScalar {
+						continue // a constant width
+					}
+					need := ""
+					for _, s := range nm.scalars {
+						if strings.HasSuffix(s, "numBytes("+v.name+")") {
+							need = s
+						}
+					}
+					if need == "" {
+						return "the value " + v.name + " is written with the shared width, but numBytes of it never took part in choosing the width: a value wider than every item is truncated"
+					}
+					if !a.has(need, wv.name) {
+						continue
+					}
+					if a.R(wv.name) < a.R(need) {
+						return "the width used (" + wv.name + ") can be smaller than numBytes(" + v.name + ")"
+					}
+				}
+				return ""
+			}})
+		for _, o := range c.Obs[before:] {
+			o.Rule = "E9.I3w"
+		}
+	}
+	c.Floor("E9.I3w", n, 2, "compressed node writers")
+}
